@@ -1,5 +1,6 @@
 import MsiModel.Expr
 import MsiProofs.Lemmas.ExprRead
+import MsiProofs.Lemmas.ExprLex
 /-
 C19 — printed queries mean what the query objects mean.
 -/
@@ -70,5 +71,37 @@ example : toks (.bin .mul (.col ['a']) (.bin .add (.col ['b']) (.col ['c']))) 0
     = [.ident ['a'], .op .mul, .lp, .ident ['b'], .op .add, .ident ['c'], .rp] := by decide
 example : toks (.bin .eq (.un .boolNot (.col ['a'])) (.col ['b'])) 0
     = [.lp, .not, .ident ['a'], .rp, .op .eq, .ident ['b']] := by decide
+
+
+/-! ### from characters
+
+`readText` = the grammar's lexical rules (`MsiModel/ExprLex.lean`: blanks, identifiers that are
+not keywords, integers with an optional sign directly in front, quoted strings without escapes,
+two-character operators) followed by the ladder reader.  The domain (`Good`): column names are
+identifiers of the grammar, and a prefix minus is not applied directly to a non-negative integer
+literal — which the API's constructors never produce (`good_build`), since they fold that case. -/
+
+/-- **readText (to_string e) = e** for every expression in the domain whose text needs no escapes -/
+def read_text_print := @MsiProofs.ExprLex.readText_fmt
+/-- the lexer yields exactly the printer's token form -/
+def lex_print := @MsiProofs.ExprLex.lex_fmtP
+/-- expressions built through the API are in the domain -/
+def good_build := @MsiProofs.ExprLex.good_build
+
+/-- the statement of the property for expressions, end to end on the model: build any tree of
+constructor calls over identifier column names; if its text prints without escapes, reading that
+text gives back the built expression, which therefore evaluates identically on every row -/
+theorem printed_means_same (e : Ast) (hc : ∀ n ∈ e.columns, MsiProofs.ExprLex.GoodIdent n)
+    (s : List Char) (hs : e.build.fmt = some s) :
+    ∃ e', readText s = some e' ∧ (∀ r : Row, e'.eval r = e.build.eval r) ∧ e'.columns = e.build.columns :=
+  ⟨e.build, read_text_print e.build (good_build e hc) s hs, fun _ => rfl, rfl⟩
+
+/-- the domain restriction is needed: `-` applied to the literal 5 prints like the literal -5 -/
+example : (Ast.un .neg (.lit (.int 5))).fmt = (Ast.lit (.int (-5))).fmt := by decide
+/-- non-vacuity: a nested expression in the domain, its text, and the text read back -/
+example : MsiProofs.ExprLex.Good
+    (.bin .mul (.col ['a']) (.bin .sub (.un .neg (.col ['b', '.', 'c'])) (.lit (.int (-5))))) :=
+  ⟨⟨_, _, rfl, by decide, by decide, by decide⟩,
+   ⟨⟨_, _, rfl, by decide, by decide, by decide⟩, fun _ n h => by cases h⟩, trivial⟩
 
 end MsiProofs.C19
